@@ -14,7 +14,7 @@ import wannierberri.result.kbandresult as KB
 import wannierberri.formula.covariant as COV
 import wannierberri.formula.formula as FRM
 from wannierberri.data_K.data_K_R import Data_K_R
-from wannierberri.symmetry.point_symmetry import transform_ident
+from wannierberri.symmetry.point_symmetry import transform_ident, transform_odd
 
 PROPERTY = "C13"
 FUNCTIONS = ["wannierberri.calculators.static.StaticCalculator.__init__/__call__ (non-tetra branch, additive and non-additive formulas, k_resolved)",
@@ -108,7 +108,7 @@ def case_sea(rec, nb, nk, nEF, fder, additive, k_resolved=False, select=None):
 
     class StubFormula:
         ndim = 0
-        transformTR = transform_ident
+        transformTR = transform_odd          # two different declarations, so that a mix-up of the two is visible
         transformInv = transform_ident
 
         def __init__(s, data_K, **kw):
@@ -180,6 +180,8 @@ def case_sea(rec, nb, nk, nEF, fder, additive, k_resolved=False, select=None):
                 rec.concrete("sea with band selection is refused (documented NotImplementedError)", True)
             return
         res = run(fder, Ef, k_resolved)
+        rec.concrete("the result carries the formula's declared TR and inversion transforms", res.transformTR is transform_odd and res.transformInv is transform_ident,
+                     detail=f"TR={res.transformTR} Inv={res.transformInv}", key=f"StaticCalculator (k_resolved={k_resolved}): result does not carry the formula's declared transformTR / transformInv")
         if k_resolved:
             data = res.data
             got = [sum((SymC.of(data[k, j]) for k in range(nk)), SymC.of(0)) / nk for j in range(nEF)]
@@ -370,7 +372,7 @@ def replay(rec):
 
     class StubFormula:
         ndim = 0
-        transformTR = transform_ident
+        transformTR = transform_odd
         transformInv = transform_ident
         def __init__(s, data_K, **kw): pass
         @property
@@ -406,6 +408,8 @@ def replay(rec):
         return True, f"raises {type(e).__name__}: {e}"
     if select is not None and fder == 0:
         return True, "sea with select_bands did not raise"
+    if not (res.transformTR is transform_odd and res.transformInv is transform_ident):
+        return True, f"result carries TR={res.transformTR} Inv={res.transformInv}, formula declares TR=odd Inv=ident"
     got = res.data.sum(axis=0) / nk if w["k_resolved"] else res.data
     scale = max(1.0, np.abs(want).max())
     bad = np.abs(np.asarray(got).reshape(-1) - want).max() > 1e-7 * scale
